@@ -46,6 +46,7 @@ class Gate:
             return None
         if ("own_dec",) not in st.flags and st.strong(box) <= DEAD:
             self.seen["first_test"] += 1
+            eng.obl("GATE-1", "dead-handle-path", b)
             return add(st, ("g_inert",))
         return None
 
@@ -57,6 +58,7 @@ class Gate:
                 if st.strong(ev.box) & DEAD:
                     eng.violate("GATE-1", "write-before-liveness-test", "Rc::drop writes the strong count before ruling out that the object is already dead (strong-state %s)" % "".join(sorted(st.strong(ev.box))), ev.b, st)
                 self.seen["own_dec"] += 1
+                eng.obl("GATE-1", "first-write", ev.b)
                 return add(st, ("own_dec",))
             if ("g_nonempty",) not in st.flags and ("own_dec",) in st.flags:
                 bad = None
@@ -70,7 +72,9 @@ class Gate:
                     eng.violate("GATE-2", "trace-before-emptiness-test", "Rc::drop %s on a path that has not observed this object's link table to be non-empty" % bad, ev.b, st)
             if ev.kind in ("alloc", "vec") or is_trace_container(ev):
                 self.seen["trace_events"] += 1
+                eng.obl("GATE-2", "trace-or-alloc-site", ev.b)
         elif self.entry_kind == "rc_clone":
+            eng.obl("GATE-3", "clone-event:%s" % ev.kind, ev.b)
             if ev.kind == "alloc" or is_trace_container(ev) or ev.kind in ("iter", "borrow", "tbl"):
                 eng.violate("GATE-3", "clone-not-constant:%s" % ev.kind, "Rc::clone performs `%s` (%s); it must only touch the strong count" % (ev.kind, ev.get("callee")), ev.b, st)
         return None
@@ -83,6 +87,7 @@ class Gate:
     def on_return(self, eng, ev, st):
         if self.entry_kind != "rc_drop":
             return None
+        eng.obl("GATE-5", "return", ev.b)
         sb = self.self_box
         if ("own_dec",) in st.flags:
             dead = st.strong(sb) <= DEAD
@@ -114,6 +119,9 @@ class Counters:
     def on_set(self, eng, ev, st):
         b, f, cls = ev.box, ev.field, ev.cls
         self.note("%s:%s" % (f, cls), ev.b)
+        eng.obl("EFF-2", "write:%s:%s" % (f, cls), ev.b)
+        if f == "strong" and cls == "inc":
+            eng.obl("TS-7", "increment", ev.b)
         if cls.startswith("other") or cls.startswith("const:") or cls.startswith("stale"):
             eng.violate("EFF-2", "unaccounted-write:%s" % f, "the %s count of %s is written with a value outside every accounting pattern (%s: %s)" % (f, show(b), cls, show(ev.value)[:80]), ev.b, st)
             return None
@@ -160,6 +168,7 @@ class Counters:
     def on_handle_new(self, eng, ev, st):
         kind, b = ev.handle, ev.ptr
         self.note("handle_new:%s" % kind, ev.b)
+        eng.obl("TS-9", "handle:%s" % kind, ev.b)
         if b is None:
             return None
         fl = ("inc_pending", kind, b)
@@ -260,6 +269,7 @@ class Kill:
             return None
         if st.strong(b) == frozenset("O"):
             self.kill_sites.add(ev.b)
+            eng.obl("KILL-1", "kill-site", ev.b)
             if st.empty(b) is not True:
                 eng.violate("KILL-1", "%s:kills-without-unlink" % short(self.entry_name), "%s takes the last strong reference of %s outside Rc::drop without checking that no adoption links exist or purging them (peers keep records naming the given-up allocation; a non-empty table is leaked)" % (short(self.entry_name), show(b)), ev.b, st)
         return None
